@@ -256,6 +256,16 @@ def check(rep, F, tier, replay=None):
         rep.inst("HASH-leak", len(cs))
         fid = F.by_key(key)[0] if F.by_key(key) else None
         e = allow.get((key, name))
+        if e is None:
+            # the same audited iteration written with another accessor (`for x in &map` -> `map.iter()` / `.values()`): the audit is
+            # about what the function does with the elements (require_local / forbid_local are re-checked below), not the accessor
+            IT = {"iter", "into_iter", "values", "keys", "iter_mut", "values_mut", "into_values", "into_keys"}
+            alt = [v for (k2, n2), v in allow.items() if k2 == key and n2 in IT and name in IT]
+            if alt:
+                tot = sum(len(v2) for (k3, n3), v2 in seen.items() if k3 == key and n3 in IT)
+                e = dict(alt[0], count=sum(a["count"] for a in alt))
+                if tot > e["count"]:
+                    e = None
         where = ", ".join(facts.loc_str(c.loc, F.fns[c.fn]) for c in cs)
         if e is None or len(cs) > e["count"]:
             rep.violation("HASH-leak", "%s|%s" % (key, name), "%s iterates a std hash container (%s at %s) on a build / serialisation path: the iteration order differs from run to run, so repeated builds of an unchanged builder can differ" % (key, name, where), {"function": key})
